@@ -52,7 +52,8 @@ def main():
         th.start()
         th.join()
         return box[0]
-    for n_, (t, o) in enumerate(job["rows"]):
+    from obs import hb_iter
+    for n_, (t, o) in enumerate(hb_iter(job["rows"])):
         # every other row is computed in a freshly started worker thread: results must not depend on the thread
         row = in_thread(one_row, job, tables, rnd, t, o) if n_ % 2 else one_row(job, tables, rnd, t, o)
         out_rows.append(row)
